@@ -16,9 +16,10 @@ import (
 )
 
 type c07HReq struct {
-	Conf int    `json:"conf"`
-	Size []int  `json:"size"`
-	Kind string `json:"kind"`
+	Conf   int    `json:"conf"`
+	Size   []int  `json:"size"`
+	Kind   string `json:"kind"`
+	Expect string `json:"expect"` // none | wait (client sends the body after the 100) | nowait
 }
 
 type c07Hist struct {
@@ -33,7 +34,13 @@ type c07Hist struct {
 func TestVerifC07ConnHistories(t *testing.T) {
 	vfOpen(t)
 	rng := vfRand()
-	levelSets := [][]int{{0, 1, 2, 3}, {0, 7, 100, 4096}, {0, 100, 8192, 20000}, {0, 4096, 8191, 8193}, {0, 1000, 70000, 1 << 20}}
+	baseSets := [][]int{{0, 1, 2, 3}, {0, 7, 100, 4096}, {0, 100, 8192, 20000}, {0, 4096, 8191, 8193}, {0, 1000, 70000, 1 << 20}}
+	nl := vfEnvInt("VERIF_C07_NL", 3)
+	// levels 1..nl are configured limits, level nl+1 is the default limit of an unconfigured server
+	var levelSets [][]int
+	for _, b := range baseSets {
+		levelSets = append(levelSets, append(append([]int{}, b[:nl+1]...), DefaultMaxRequestBodySize))
+	}
 	servers := map[string]*Server{}
 	server := func(li, s int) *Server {
 		k := fmt.Sprintf("%d/%d", li, s)
@@ -43,14 +50,14 @@ func TestVerifC07ConnHistories(t *testing.T) {
 		R := levelSets[li]
 		sv := &Server{
 			Handler:            c07Handler,
-			MaxRequestBodySize: R[s],
+			MaxRequestBodySize: R[s], // s = 0: not configured
 			Logger:             c07NoLog{},
 			HeaderReceived: func(h *RequestHeader) RequestConfig {
 				// path /r<k>c<conf>: per-request limit level; other RequestConfig fields stay zero
 				p := string(h.RequestURI())
 				i := strings.IndexByte(p, 'c')
 				conf, _ := strconv.Atoi(p[i+1:])
-				if conf > 0 && conf < len(R) {
+				if conf > 0 && conf <= nl {
 					return RequestConfig{MaxRequestBodySize: R[conf]}
 				}
 				return RequestConfig{}
@@ -78,9 +85,13 @@ func TestVerifC07ConnHistories(t *testing.T) {
 		if !vfQuick() {
 			sets = []int{0, 1, 2, 3, 4}
 		}
-		for _, li := range sets {
+		for si, li := range sets {
+			if h.S == 0 && si > 0 {
+				continue // the default limit does not depend on the level set: once per history
+			}
 			R := levelSets[li]
 			var segs [][]byte
+			var gated []int // indices of segments that are only sent once "100 Continue" was received
 			var bodies [][]byte
 			var paths []string
 			for k, rq := range h.Reqs {
@@ -88,10 +99,19 @@ func TestVerifC07ConnHistories(t *testing.T) {
 				body := c07Data(n)
 				path := fmt.Sprintf("/r%dc%d", k+1, rq.Conf)
 				var msg []byte
+				exp := ""
+				if rq.Expect == "wait" || rq.Expect == "nowait" {
+					exp = "Expect: 100-continue\r\n"
+				}
+				var headLen int
 				if rq.Kind == "fixed" {
-					msg = append([]byte("POST "+path+" HTTP/1.1\r\nHost: h\r\nContent-Length: "+strconv.Itoa(n)+"\r\n\r\n"), body...)
+					hd := "POST " + path + " HTTP/1.1\r\nHost: h\r\n" + exp + "Content-Length: " + strconv.Itoa(n) + "\r\n\r\n"
+					headLen = len(hd)
+					msg = append([]byte(hd), body...)
 				} else {
-					msg = []byte("POST " + path + " HTTP/1.1\r\nHost: h\r\nTransfer-Encoding: chunked\r\n\r\n")
+					hd := "POST " + path + " HTTP/1.1\r\nHost: h\r\n" + exp + "Transfer-Encoding: chunked\r\n\r\n"
+					headLen = len(hd)
+					msg = []byte(hd)
 					half := n / 2
 					for _, part := range [][]byte{body[:half], body[half:]} {
 						if len(part) > 0 {
@@ -100,19 +120,29 @@ func TestVerifC07ConnHistories(t *testing.T) {
 					}
 					msg = append(msg, "0\r\n\r\n"...)
 				}
-				segs = append(segs, msg)
+				if rq.Expect == "wait" {
+					// the client sends the body only after the interim 100 response
+					segs = append(segs, msg[:headLen])
+					gated = append(gated, len(segs))
+					segs = append(segs, msg[headLen:])
+				} else {
+					segs = append(segs, msg)
+				}
 				bodies = append(bodies, body)
 				paths = append(paths, path)
 			}
-			if rng.Intn(2) == 0 { // everything in one segment
+			if len(gated) == 0 && rng.Intn(2) == 0 { // everything in one segment
 				segs = [][]byte{bytes.Join(segs, nil)}
 			}
-			c := &c07Conn{segs: segs}
+			c := &c07Conn{segs: segs, after100: gated}
 			server(li, h.S).ServeConn(c) //nolint:errcheck
 			evals++
 			eff := func(k int) int {
 				if h.Reqs[k].Conf > 0 {
 					return R[h.Reqs[k].Conf]
+				}
+				if h.S == 0 {
+					return R[nl+1]
 				}
 				return R[h.S]
 			}
@@ -126,11 +156,11 @@ func TestVerifC07ConnHistories(t *testing.T) {
 			if raisedBefore || h.Expect.Rejected {
 				nontriv++
 			}
-			cas := vfRec{"server_limit": R[h.S], "levels": R, "history": h, "dispatched": c.dispatches, "out": fmt.Sprintf("%.300q", c.out.String())}
+			cas := vfRec{"server_limit_configured": R[h.S], "default_limit": DefaultMaxRequestBodySize, "levels": R, "history": h, "dispatched": c.dispatches, "out": fmt.Sprintf("%.300q", c.out.String())}
 			desc := fmt.Sprintf("%s,last-conf=%d,server=%d,earlier-raised=%v", h.Reqs[last].Kind, h.Reqs[last].Conf, h.S, raisedBefore)
 			if len(c.dispatches) > h.Expect.Served {
 				k := h.Expect.Served
-				viol("hist-admitted:"+desc, fmt.Sprintf("request #%d (%s, body %d bytes) was dispatched although its effective limit is %d (server %d, per-request config %d); earlier requests on the connection had configs %v",
+				viol("hist-admitted:"+desc, fmt.Sprintf("request #%d (%s, body %d bytes) was dispatched although its effective limit is %d (server setting %d, per-request config %d); earlier requests on the connection had configs %v",
 					k+1, paths[k], len(bodies[k]), eff(k), R[h.S], h.Reqs[k].Conf, h.Reqs[:k]), cas)
 				return
 			}
